@@ -184,15 +184,22 @@ def root_cause(s, d, kind, got=None):
         return 'F12a:der-length-near-SIZE_MAX-wraps'
     if d == D_SIZE and kind in ('accepts', 'oob-read', 'consumed>input') and tl and (tl[1] == 0 or tl[1] > len(s) - tl[2]):
         return 'F12b:der-TSIZE-value-absent-or-short'
-    if d in (D_OID, D_OIDFROM) and kind == 'accepts' and C.der_dec2(s, 0x06):
+    v = C.der_dec2(s, 0x06)
+    if d in (D_OID, D_OIDFROM) and kind == 'accepts' and v and (len(v[0]) == 0 or v[0][-1] & 0x80):
         return 'G4:der-OID-empty-or-unterminated-subidentifier-accepted'
     if d == D_PSTR and kind == 'accepts' and tl and b'\0' in s[tl[2]:]:
         return 'G5:der-PSTR-NUL-accepted'
-    if d == D_BIT and kind == 'accepts' and C.der_dec(s) and len(C.der_dec(s)[1]) >= 2 and 1 <= C.der_dec(s)[1][0] <= 7:
+    v = C.der_dec(s)
+    if d == D_BIT and kind == 'accepts' and v and len(v[1]) >= 2 and 1 <= v[1][0] <= 7 and v[1][-1] & ((1 << v[1][0]) - 1):
         return 'G6:der-BIT-nonzero-padding-accepted'
     if d == D_SEQ and kind == 'gate':
         return 'G3:der-encoder-rejects-valid-tag'
-    return 'other:%s:%s:tag=%s,len=%s' % (DNAME[d], kind, tc, lc)
+    lcn = re.sub(r'-\d+', '', lc)
+    if lcn not in ('short', 'long', 'none', '-'):
+        return 'other:%s:length-form=%s' % (kind, lcn)
+    if tc not in ('short', 'none') and not re.match(r'long-\d$', tc):
+        return 'other:%s:tag-form=%s' % (kind, re.sub(r'-\d+', '', tc))
+    return 'other:%s:%s' % (DNAME[d], kind)
 
 def der_judge(s, raw, which=W_FULL):
     """compare one record with the reference -> list of (key, decoder name, kind, detail)"""
@@ -498,7 +505,9 @@ def apdu_judge(s, raw):
             elif not flags & 4:
                 out.append(('apdu:cmd:size', 'apduCmdDec', 'value', 'size of the first (null output) and the second call differ or != sizeof + cdf_len'))
             elif not flags & 1:
-                out.append(('G8:apdu-cmd-non-shortest-form-accepted', 'apduCmdDec', 'accepts',
+                forms = C.apdu_cmd_forms(s)
+                key = 'G8:apdu-cmd-non-shortest-form-accepted' if forms == ('ext', None) else 'apdu:cmd:non-shortest-form-accepted:Lc=%s,Le=%s' % forms
+                out.append((key, 'apduCmdDec', 'accepts',
                             'accepted (cdf_len %d, rdf_len %d) but apduCmdEnc of the decoded command gives %d octets, not these %d (Lc/Le forms %s)' %
                             (cdf_len, rdf_len, enc_len, len(s), C.apdu_cmd_forms(s))))
     else:
@@ -1055,7 +1064,7 @@ def mut_job(item):
         if key is None and tgt.startswith('smcmd') and mc.startswith('lc:') and kind == 'accepts':
             key = 'G9:sm-cmd-mismatching-Lc-Le-forms-accepted'
         if key is None:
-            key = 'mut:%s:%s:%s' % (re.sub(r'[\d(),+]+.*', '', tgt), mc, kind)
+            key = 'mut:%s:%s' % (re.sub(r'-\d+|\+cut|\+outer-lengths-kept', '', mc), kind)
         out['msg'] = msg; out['key'] = key; out['kind'] = kind
     return out
 
